@@ -55,6 +55,7 @@ func init() {
 		latm := run.Rule("LOCK-atomic", "every externally callable method of a mutex-containing struct takes the lock first and releases it by defer", 2).RequireControl(1)
 		ldbl := run.Rule("LOCK-double", "no path locks the same mutex twice", 2).RequireControl(1)
 		conc := run.Rule("NO-concurrency", "no goroutine, channel, sync/atomic or unsafe.Pointer conversion in library code (outside the allow-listed Keccak cast)", 400).RequireControl(1)
+		retf := run.Rule("RETURN-fresh", "byte slices returned by exported functions never alias the storage of the receiver or of a parameter (callers own and modify what they get)", 20)
 		inro := run.Rule("INPUT-readonly", "no exported function of a public package writes through an input parameter (callers share keys, scalars and messages between goroutines)", 200)
 		for _, id := range c.Configs() {
 			p := c.Prog(id)
@@ -63,6 +64,7 @@ func init() {
 				delete(st, "discovered")
 				run.Sample(st)
 			}
+			checkReturnFresh(p, retf, false)
 			asmWrites := map[string][]int{}
 			if len(p.Pkg("internal/field").OtherFiles)+len(p.Pkg("curve").OtherFiles)+len(p.Pkg("internal/strobe").OtherFiles) > 0 {
 				ares := easm.Lint(run, p, "ASM", nil)
